@@ -430,6 +430,168 @@ def replay_jac(a):
 
 
 # ------------------------------------------------------------------ full size tie-in
+# ------------------------------------------------------------------ linefunc / is_on_curve on the shipped field classes
+def _ext_coords(cfg, env, tag):
+    """coordinate alphabet of an extension field: base-field values, values of the quadratic subfield
+    (only coefficients 0 and k/2), single powers of the generator, dense seeded"""
+    from ..core import rng
+    g = rng(env, "ext:" + tag)
+    p, k = cfg.p, len(cfg.mc)
+
+    def vec(d):
+        v = [0] * k
+        for i, c in d.items():
+            v[i] = c % p
+        return tuple(v)
+
+    base = [vec({0: 1}), vec({0: 2}), vec({0: p - 1}), vec({0: g.randrange(p)})]
+    sub = [vec({0: g.randrange(p), k // 2: g.randrange(1, p)}), vec({k // 2: 1})]
+    mono = [vec({1: 1}), vec({k - 1: g.randrange(1, p)})] if k > 2 else []
+    dense = [tuple(g.randrange(p) for _ in range(k))]
+    return base, sub + mono + dense
+
+
+def _ext_points(cfg, env, tag):
+    base, other = _ext_coords(cfg, env, tag)
+    zero = tuple([0] * len(cfg.mc))
+    one = base[0]
+    pts = []
+    for x in (base[1], base[3], other[0], other[-1], zero):
+        for y in (base[2], other[0], other[-1]):
+            for z in (one, base[1], other[-1]):
+                pts.append((x, y, z))
+    return pts
+
+
+def ext_line_case(mod, group, P1, P2, T):
+    """None or (kind, expected, observed): projective linefunc on the module's own extension-field class
+    against the affine line function computed in the model field"""
+    from . import C07_full
+    curve = "bn128" if "bn128" in mod else "bls12_381"
+    cfg = C07_full.field_cfg(curve, group, "opt")
+    F = cfg.F
+    PM = importlib.import_module(PAIR[mod])
+
+    def aff_(Pt):
+        iz = F.inv(Pt[2])
+        return (F.mul(Pt[0], iz), F.mul(Pt[1], iz))
+
+    A, B, Ta = aff_(P1), aff_(P2), aff_(T)
+    if A[0] != B[0]:
+        kind = "chord"
+        m = F.div(F.sub(B[1], A[1]), F.sub(B[0], A[0]))
+        exp = F.sub(F.mul(m, F.sub(Ta[0], A[0])), F.sub(Ta[1], A[1]))
+    elif A[1] == B[1]:
+        kind = "tangent"
+        if F.is_zero(A[1]):
+            return None
+        m = F.div(F.smul(F.mul(A[0], A[0]), 3), F.smul(A[1], 2))
+        exp = F.sub(F.mul(m, F.sub(Ta[0], A[0])), F.sub(Ta[1], A[1]))
+    else:
+        kind = "vertical"
+        exp = F.sub(Ta[0], A[0])
+    try:
+        n, d = PM.linefunc(*(tuple(cfg.lib(c) for c in Pt) for Pt in (P1, P2, T)))
+        nm, dm = cfg.mod(n), cfg.mod(d)
+        got = "zero denominator" if F.is_zero(dm) else F.div(nm, dm)
+    except Exception as e:  # noqa: BLE001
+        got = "raise " + type(e).__name__
+    return None if got == exp else (kind, exp, got)
+
+
+def task_line_ext(a, env):
+    mod, group = a["mod"], a["group"]
+    r = R("linefunc:%s:%s-operands" % (mod, "FQ2" if group == "E2" else "FQ12"))
+    from . import C07_full
+    curve = "bn128" if "bn128" in mod else "bls12_381"
+    cfg = C07_full.field_cfg(curve, group, "opt")
+    F = cfg.F
+    pts = _ext_points(cfg, env, mod + group)
+    P1s = pts[a["lo"]::a["step"]]
+    kinds = {}
+    for P1 in P1s:
+        # P2: every alphabet point, P1 itself rescaled (tangent), P1 with y negated (vertical)
+        lam = pts[5][2]
+        P2s = pts[:: a.get("thin2", 1)] + [tuple(F.mul(c, lam) for c in P1), (P1[0], F.neg(P1[1]), P1[2])]
+        for P2 in P2s:
+            for T in pts[:: a.get("thinT", 1)]:
+                if any(F.is_zero(Pt[2]) for Pt in (P1, P2, T)):
+                    continue
+                bad = ext_line_case(mod, group, P1, P2, T)
+                r.ev += 1
+                r.dk.add((P1, P2, T))
+                if bad:
+                    kinds[bad[0]] = kinds.get(bad[0], 0) + 1
+                    r.viol("C13:%s:linefunc:%s:%s" % (mod, "FQ2" if group == "E2" else "FQ12", bad[0]), ME + ":replay_line_ext",
+                           {"mod": mod, "group": group, "P1": [list(c) for c in P1], "P2": [list(c) for c in P2],
+                            "T": [list(c) for c in T]}, bad[1], bad[2])
+    r.transitions = r.ev
+    if a["lo"] == 0:
+        r.sample({"mod": mod, "operands": "FQ2" if group == "E2" else "FQ12", "points": len(pts),
+                  "coordinate_classes": "base-field value / quadratic-subfield value / single power of w / dense, mixed per coordinate"})
+    return r
+
+
+def replay_line_ext(a):
+    tt = lambda P: tuple(tuple(c) for c in P)  # noqa: E731
+    bad = ext_line_case(a["mod"], a["group"], tt(a["P1"]), tt(a["P2"]), tt(a["T"]))
+    return None if not bad else {"kind": bad[0], "expected": bad[1], "observed": bad[2]}
+
+
+def other_b_case(mod, group, bi):
+    """[(label, expected, observed)] is_on_curve with a curve constant other than the module's own, on the
+    module's own field classes: points of y^2 = x^3 + b' (found by the model) in several scalings"""
+    from . import C07_full
+    curve = "bn128" if "bn128" in mod else "bls12_381"
+    cfg = C07_full.field_cfg(curve, group, "opt")
+    F = cfg.F
+    M = importlib.import_module(CURVE[mod])
+    p = cfg.p
+    bs = [1, 2, 5, p - 1, 7] if group == "E1" else [(1, 0), (0, 1), (5, 3), (p - 1, 2), (2, 2)]
+    b_ = F.el(bs[bi])
+    out = []
+    found = 0
+    for xi in range(1, 60):
+        x = F.el(xi) if group == "E1" else F.el((xi, 1))
+        y = F.sqrt(F.add(F.mul(F.mul(x, x), x), b_))
+        if y is None:
+            continue
+        found += 1
+        for lam in ([1, 2, p - 1] if group == "E1" else [(1, 0), (0, 1), (3, 5)]):
+            lam = F.el(lam)
+            Pt = tuple(cfg.lib(F.mul(c, lam)) for c in (x, y, F.one))
+            for lbl, bb, exp in (("own b'", b_, True), ("b' + 1", F.add(b_, F.one), False)):
+                try:
+                    got = M.is_on_curve(Pt, cfg.lib(bb))
+                except Exception as e:  # noqa: BLE001
+                    got = "raise " + type(e).__name__
+                out.append(("x=%d %s" % (xi, lbl), exp, got))
+        if found >= 3:
+            break
+    return out
+
+
+def task_other_b(a, env):
+    r = R("is_on_curve:caller-chosen-b:%s" % a["mod"])
+    for group in ("E1", "E2"):
+        for bi in range(5):
+            for lbl, exp, got in other_b_case(a["mod"], group, bi):
+                r.ev += 1
+                r.dk.add((group, bi, lbl))
+                if got is not exp:
+                    r.viol("C13:%s:is_on_curve:caller-chosen-b:%s" % (a["mod"], "FQ" if group == "E1" else "FQ2"),
+                           ME + ":replay_other_b", {"mod": a["mod"], "group": group, "bi": bi}, exp, got, note=lbl)
+    r.sample({"mod": a["mod"], "b": "1, 2, 5, p-1, 7 (FQ) / five FQ2 values", "points": "3 per b, 3 scalings"})
+    return r
+
+
+def replay_other_b(a):
+    for lbl, exp, got in other_b_case(a["mod"], a["group"], a["bi"]):
+        if got is not exp:
+            return {"case": lbl, "expected": exp, "observed": got}
+    return None
+
+
 def task_full(a, env):
     from . import C07_full
 
@@ -480,4 +642,11 @@ def run(ctx):
     for curve in ("bn128", "bls12_381"):
         for group in ("E1", "E2"):
             tasks.append(("full", {"curve": curve, "group": group}))
+    for mod in CURVE:
+        tasks.append(("other_b", {"mod": mod}))
+        for group, step in (("E12", 9), ("E2", 3)):
+            for lo in range(step):
+                tasks.append(("line_ext", {"mod": mod, "group": group, "lo": lo, "step": step,
+                                           "thin2": (5 if group == "E12" else 3) if ctx.quick else 1,
+                                           "thinT": (3 if group == "E12" else 2) if ctx.quick else 1}))
     ctx.pmap(ME, tasks)
